@@ -24,17 +24,26 @@ MANIFEST = dict(
          "and as recycled per-column / per-row patterns of every length 1..ncol+1 / 1..nrow+1 "
          "on paginated tables with removed columns — each shape in every spelling the constructor accepts (Python "
          "scalar / list / tuple / nested list, numpy scalar / 0-d / 1-D / 2-D array, polars Series / DataFrame) — and by "
-         "a paginated-vs-unpaginated metamorphic check.",
+         "a paginated-vs-unpaginated metamorphic check. Numeric attributes (row height, font size, indents, spacing, "
+         "border width) are drawn fine-grained — heights with even / odd twip counts in both residues mod 4 and exact "
+         "ties of the twip rounding, half / quarter / tenth font sizes, arbitrary (odd, zero, negative first-line) "
+         "integers — and the number read off the real output is compared both with the direct rule and with the "
+         "number the Lean encoder model emits for that value (Props/C09num.lean says what that number is).",
     note="How an attribute value is spelled in RTF (control words) is checked on the observation with the code's own "
          "code tables (translated data); page-boundary top/bottom borders belong to C07 and are excluded here. "
          "1-D array-likes (numpy 1-D / 0-d arrays, polars Series) are accepted for the text_* attributes only "
          "(border_* / cell_* are typed list[list[..]] and refuse them at construction): those spellings are drawn "
-         "where they are accepted; pandas is not installed here, its Series takes the same path as a numpy 1-D array.",
+         "where they are accepted; pandas is not installed here, its Series takes the same path as a numpy 1-D array. "
+         "Row heights within 2^-30 of a twip rounding boundary that are not exact dyadic ties are not drawn (their "
+         "twip count depends on float rounding error); column widths belong to C08.",
     technique="Lean 4 proof (broadcast/slice algebra) + observation-level oracle and metamorphic check",
     design="7/C09",
 )
 
-RULE = ("every body attribute × shapes {scalar, 1×ncol, nrow×ncol} with random legal values × tables of 1..40 rows × "
+RULE = ("every body attribute × shapes {scalar, 1×ncol, nrow×ncol} with random legal values (numeric ones fine-grained: "
+        "cell_height as t/1440, 2- and 3-decimal inches and m/64 — even / odd ≡ 1 / odd ≡ 3 (mod 4) twip counts, exact "
+        "ties of inch_to_twip; text_font_size whole / half / quarter / tenth points; indents, space before / after and "
+        "border width any integer of the usual range) × tables of 1..40 rows × "
         "nrow from one page to many × 0..k removed columns at any position × the three strategies; a second stream "
         "draws every shape in every spelling RTFBody accepts for the attribute (Python scalar / [v] / [[v]] / list / "
         "tuple / nested list, numpy scalar, numpy 0-d / 1-D / 2-D array, polars Series / DataFrame); a third stream "
@@ -48,31 +57,104 @@ RULE = ("every body attribute × shapes {scalar, 1×ncol, nrow×ncol} with rando
 # computed against any other ordering of the document's palette than the table's own shows
 COLORS = ["red", "blue", "green", "gold", "gray50", "navy", "orchid", "salmon", "white", "gray2", "gray10", "gray100"]
 BORDERS = ["single", "double", "dotted", "dashed", "thick", ""]
+
+
+# ---- numeric attributes: round representatives AND fine-grained values, so that every rounding / truncation boundary
+# of the emission arithmetic is drawn:
+#   cell_height   `\trgaph int(round(h * 1440) / 2)`: twip counts of both parities, the odd ones in both residues mod 4
+#                 (the halves x.5 next to an even and next to an odd integer), given as t/1440, as 2- and 3-decimal
+#                 inches (0.18 → 259, 0.155 → 223, 0.17 → 245), and the dyadic heights m/64 (m odd) whose product with
+#                 1440 is EXACTLY x.5 in float arithmetic too (the tie of `round`, towards an even and towards an odd
+#                 neighbour)
+#   text_font_size `\fs int(2 * size)`: whole, half, quarter (9.25 → 18, 9.75 → 19) and tenth sizes (10.9 → 21)
+#   indents, space before / after, border width: any integer of the usual range, odd ones included (emitted as given)
+def _cell_height(r):
+    u = r.random()
+    if u < 0.30:
+        return r.choice([0.15, 0.2, 0.3])
+    if u < 0.55:
+        return r.randint(90, 620) / 1440          # a given number of twips
+    if u < 0.75:
+        return r.randint(80, 450) / 1000          # inches to three decimals
+    if u < 0.90:
+        return r.randint(8, 45) / 100             # inches to two decimals
+    return (2 * r.randint(3, 14) + 1) / 64        # exact ties of inch_to_twip: 1440 * m / 64 = 22.5 m
+
+
+def _font_size(r):
+    u = r.random()
+    if u < 0.35:
+        return r.choice([6, 8, 9, 9.5, 10, 12, 14.5])
+    if u < 0.65:
+        return r.randint(24, 59) / 4              # quarter points 6 .. 14.75
+    if u < 0.9:
+        return r.randint(60, 148) / 10            # tenths of a point
+    return r.randint(6, 14)                       # whole points as int
+
+
+def _int_fine(pool, lo, hi):
+    return lambda r: r.choice(pool) if r.random() < 0.4 else r.randint(lo, hi)
+
+
+NUMERIC = ("cell_height", "text_font_size", "text_indent_first", "text_indent_left", "text_indent_right", "text_space",
+           "text_space_before", "text_space_after", "border_width", "text_font")
+
+
+def num_label(a, v):
+    """the input class of one numeric attribute value (→ res.count)"""
+    if isinstance(v, bool) or not isinstance(v, (int, float)):
+        return None
+    if a == "cell_height":
+        x = v * 1440
+        if x == int(x) + 0.5:
+            return "num:cell_height:exact tie of inch_to_twip (m/64), " + ("even" if int(x) % 2 == 0 else "odd") + " below"
+        t = round(x)
+        return "num:cell_height:twips " + ("even" if t % 2 == 0 else f"odd ≡ {t % 4} mod 4")
+    if a == "text_font_size":
+        x = v * 2
+        return "num:text_font_size:" + ("whole" if v == int(v) else "half" if x == int(x) else
+                                        "quarter" if v * 4 == int(v * 4) else "tenth") + \
+            ("" if x == int(x) else " (2·size truncated)")
+    if a in ("text_indent_first", "text_indent_left", "text_indent_right", "text_space_before", "text_space_after",
+             "border_width"):
+        return f"num:{a}:" + ("zero" if v == 0 else "negative" if v < 0 else "odd" if v % 2 else
+                              "even, not a multiple of 5" if v % 5 else "multiple of 10" if v % 10 == 0 else "multiple of 5")
+    return None
+
+
+def num_labels(a, v):
+    if a not in NUMERIC:
+        return []
+    flat = v if isinstance(v, list) else [v]
+    flat = [y for x in flat for y in (x if isinstance(x, list) else [x])]
+    return sorted({lab for x in flat for lab in [num_label(a, x)] if lab})
+
+
 ATTRS = {
     "text_font": lambda r: r.randint(1, 10),
-    "text_font_size": lambda r: r.choice([6, 8, 9, 9.5, 10, 12, 14.5]),
+    "text_font_size": _font_size,
     "text_format": lambda r: r.choice(["", "b", "i", "u", "bi", "s", "^", "_", "ub"]),
     "text_color": lambda r: r.choice(COLORS + ["", "black"]),
     "text_background_color": lambda r: r.choice(COLORS + [""]),
     "text_justification": lambda r: r.choice(["l", "c", "r", "j", "d"]),
-    "text_indent_first": lambda r: r.choice([0, 120, 360]),
-    "text_indent_left": lambda r: r.choice([0, 100, 240]),
-    "text_indent_right": lambda r: r.choice([0, 90]),
+    "text_indent_first": _int_fine([0, 120, 360], -300, 900),      # a negative first-line indent = hanging indent
+    "text_indent_left": _int_fine([0, 100, 240], 0, 900),
+    "text_indent_right": _int_fine([0, 90], 0, 600),
     "text_space": lambda r: r.choice([1, 1, 2, 3]),
-    "text_space_before": lambda r: r.choice([15, 0, 30]),
-    "text_space_after": lambda r: r.choice([15, 5, 40]),
+    "text_space_before": _int_fine([15, 0, 30], 0, 300),
+    "text_space_after": _int_fine([15, 5, 40], 0, 300),
     "text_hyphenation": lambda r: r.random() < 0.5,
     "border_left": lambda r: r.choice(BORDERS),
     "border_right": lambda r: r.choice(BORDERS),
     "border_top": lambda r: r.choice(BORDERS),
     "border_bottom": lambda r: r.choice(BORDERS),
-    "border_width": lambda r: r.choice([15, 10, 30, 45]),
+    "border_width": _int_fine([15, 10, 30, 45], 1, 120),
     "border_color_left": lambda r: r.choice(COLORS + [""]),
     "border_color_top": lambda r: r.choice(COLORS + [""]),
     "border_color_bottom": lambda r: r.choice(COLORS + [""]),
     "border_color_right": lambda r: r.choice(COLORS + [""]),
     "cell_vertical_justification": lambda r: r.choice(["top", "center", "bottom"]),
-    "cell_height": lambda r: r.choice([0.15, 0.2, 0.3]),
+    "cell_height": _cell_height,
     "cell_justification": lambda r: r.choice(["l", "c", "r"]),
 }
 
@@ -209,6 +291,7 @@ class C09(layfamily.Family):
                     labels.append("held:flat-list" + (":no-removal" if not info["removed"] else ":removal"))
             spec["body"][a] = spell(v, sh, sp) if sp else v
             shapes[a] = sh
+            labels += num_labels(a, v)
             if L > 1:
                 labels.append("pattern:cols:" + ("1<L<ncol" if L < ncols else "L=ncol" if L == ncols else "L=ncol+1"))
             if M > 1:
@@ -236,7 +319,7 @@ class C09(layfamily.Family):
         # the spelled stream also draws documents with one to three attributes (a value the implementation binds to
         # the wrong cell is then not masked by another attribute on which the same document is refused)
         chosen = rng.sample(sorted(ATTRS), rng.randint(1, 3) if spelled and rng.random() < 0.5 else rng.randint(2, 7))
-        shapes = {}
+        shapes, numlabs = {}, []
         for a in chosen:
             g = ATTRS[a]
             sh = rng.choice(["scalar", "percol", "matrix", "matrix"])
@@ -257,10 +340,12 @@ class C09(layfamily.Family):
                 v = [[g(rng) for _ in range(ncols)] for _ in range(n)]
             spec["body"][a] = v
             shapes[a] = sh
+            numlabs += num_labels(a, v)
         info["attrs"] = chosen
         info["shapes"] = shapes
+        info["labels"] = sorted(set(numlabs))
         if spelled:
-            spellings, labels = {}, []
+            spellings, labels = {}, sorted(set(numlabs))
             for a in chosen:
                 v, sh = spec["body"][a], shapes[a]
                 sample = v if sh == "scalar" else v[0] if sh == "percol" else v[0][0]
@@ -281,7 +366,7 @@ class C09(layfamily.Family):
 
         return tuple(name_to_rgb[name])
 
-    def expected_and_observed(self, spec, info, doc, rowblock, r, j, oc, is_top, is_bottom, last_col):
+    def expected_and_observed(self, spec, info, doc, rowblock, r, j, oc, is_top, is_bottom, last_col, raw=None):
         from rtflite.core.constants import RTFConstants as K
 
         body = spec["body"]
@@ -296,6 +381,8 @@ class C09(layfamily.Family):
             return doc.colors[idx] if idx < len(doc.colors) else ("bad-index", idx)
         for a in info["attrs"]:
             v = iloc(body[a], r, oc) if a not in ("cell_height", "cell_justification") else iloc(body[a], r, 0)
+            if raw is not None and a in NUMERIC:
+                raw[(r, j, a)] = v
             if a == "text_font":
                 out.append((a, v - 1, run.get("f")))
             elif a == "text_font_size":
@@ -348,7 +435,7 @@ class C09(layfamily.Family):
                 out.append((a, v, rowblock.props.get("just")))
         return out
 
-    def cell_table(self, spec, info, ob):
+    def cell_table(self, spec, info, ob, raw=None):
         """{(r, j): [(attr, expected, observed)…]} for every tagged data cell of the real output"""
         cols = spec["df"]["cols"]
         disp = [cols.index(c) for c in info["displayed"]]
@@ -365,7 +452,7 @@ class C09(layfamily.Family):
                         table[(r, j)] = [("cell-present", True, False)]
                         continue
                     table[(r, j)] = self.expected_and_observed(spec, info, ob["_doc"], rb, r, j, oc, is_top, is_bottom,
-                                                               j == len(disp) - 1)
+                                                               j == len(disp) - 1, raw)
         return table
 
     def oracle(self, spec, info, ob):
@@ -417,7 +504,38 @@ class C09(layfamily.Family):
             mat = v if isinstance(v, list) and v and isinstance(v[0], list) else [v] if isinstance(v, list) else [[v]]
             out.append(dict(attr=a, mat=[[json.dumps(x) for x in row] for row in mat], rows=info["n"], cols=len(cols),
                             removed=removed, pages=pages, ndisp=len(disp)))
-        return out
+        return dict(grids=out, nums=self.numeric_items(spec, info, ob))
+
+    def numeric_items(self, spec, info, ob):
+        """for the model tie of the emission arithmetic: every distinct (numeric attribute, value the body attribute
+        gives at a cell's original position, number read off that cell of the real output), with the first cell that
+        shows it.  Floats travel as their exact rational."""
+        from fractions import Fraction
+
+        if not any(a in NUMERIC for a in info["attrs"]):
+            return []
+        raw = {}
+        table = self.cell_table(spec, info, ob, raw)
+        seen, items = set(), []
+        for (r, j), cell in sorted(table.items()):
+            for a, exp, obs in cell:
+                v = raw.get((r, j, a))
+                if v is None or isinstance(v, bool) or not isinstance(v, (int, float)):
+                    continue
+                if isinstance(v, float) and v != v or v in (float("inf"), float("-inf")):
+                    continue
+                if isinstance(v, float):
+                    f = Fraction(v)
+                    val = f"{f.numerator}/{f.denominator}"
+                else:
+                    val = int(v)
+                key = (a, val, obs if isinstance(obs, (int, type(None))) else repr(obs))
+                if key in seen:
+                    continue
+                seen.add(key)
+                items.append(dict(attr=a, value=val, shown=repr(v), cell=[r, j], expected=exp,
+                                  observed=obs if isinstance(obs, (int, type(None))) else repr(obs)))
+        return items
 
     def project(self, pages, info):
         return [[b for b in p if b[0] == "data"] for p in pages]
@@ -453,7 +571,7 @@ def model_grids(res, outs):
     """Lean model vs direct rule on the page cuts the implementation really produced (cell_attr op)"""
     reqs, meta = [], []
     for o in outs:
-        for e in o.get("extra") or []:
+        for e in (o.get("extra") or {}).get("grids") or []:
             for (start, height) in e["pages"]:
                 reqs.append(dict(op="cell_attr", attr=e["mat"], rows=e["rows"], cols=e["cols"], removed=e["removed"],
                                  start=start, height=height))
@@ -465,6 +583,73 @@ def model_grids(res, outs):
             res.disagree(dict(spec=o["spec"], info=o["info"]),
                          f"Lean model of the attribute pipeline differs from the original-position rule for {e['attr']} "
                          f"on page rows [{start},{start + height}): {d['model']} vs {d['spec']}")
+
+
+def model_numbers(res, outs):
+    """Lean model of the emission arithmetic (`emit_num`: `resolveText` / `resolveBorder` / `gaphOf` of Model.Encode,
+    the functions C09enc_binding builds the page cells with) vs the number read off the real output, for every
+    distinct (numeric attribute, value) of every document.  A value within 2^-30 of a rounding boundary of
+    inch_to_twip is compared only when it is an exact tie (dyadic: the float product is exact as well)."""
+    reqs, meta = [], []
+    for o in outs:
+        for it in (o.get("extra") or {}).get("nums") or []:
+            reqs.append(dict(op="emit_num", attr=it["attr"], value=it["value"]))
+            meta.append((o, it))
+    drv = common.driver_batch(reqs)
+    bad_docs = set()
+    for (o, it), d in zip(meta, drv):
+        a = it["attr"]
+        if "refused" in d:
+            res.count(f"model-number:{a}:value refused by the model ({d['refused']})")
+            continue
+        if d.get("near") and not d.get("tie"):
+            res.count(f"model-number:{a}:near a rounding boundary (not compared)")
+            continue
+        res.corr_checked += 1
+        res.count(f"model-number:{a}:compared")
+        if d["n"] != it["observed"] and id(o) not in bad_docs:
+            bad_docs.add(id(o))
+            why = (f"{a}={it['shown']} (original position of data cell row {it['cell'][0]}, displayed column "
+                   f"{it['cell'][1]}): the Lean encoder model emits {d['n']!r}"
+                   + (f" (= int({d['twip']} twips / 2))" if "twip" in d else "")
+                   + f", the real output has {it['observed']!r} (direct rule: {it['expected']!r})")
+            res.disagree(dict(spec=o["spec"], info=o["info"]), why)
+
+
+def emitter_tie_notes(res, build):
+    """The emitters of row.py that turn C09's attribute values into control words are tied to Model/Emit by the
+    translator (bridge files of C01: Props/C01py*.lean).  A function that no longer translates, or whose translated
+    definition changed in this run, is outside that tie: say so in the evidence (the observation-level oracle and the
+    model tie of the emitted numbers are then the only ties for it)."""
+    try:
+        status = json.loads((common.LEAN / "Generated" / "py_status.json").read_text())
+    except Exception:  # noqa: BLE001
+        return
+    import subprocess
+
+    names = ["RowAsRtf", "CellAsRtf", "BorderAsRtf", "ParagraphFormatting", "TextFormatting", "TextAsRtf", "Iloc"]
+    for n in names:
+        st = status.get(n) or {}
+        msg = None
+        if st and not st.get("ok"):
+            msg = (f"translator tie lost: {st.get('func')} ({st.get('file')}) is outside the translated subset: "
+                   f"{st.get('why')}")
+            res.count("translator-tie:lost:" + n)
+        elif st:
+            # still translated: is it the definition the committed bridge proofs are about?
+            try:
+                rel = f"lean/Generated/Py{n}.lean"
+                p = subprocess.run(["git", "-C", str(common.LEAN.parent), "show", "HEAD:" + rel], capture_output=True,
+                                   timeout=30)
+                if p.returncode == 0 and p.stdout.decode() != (common.LEAN / "Generated" / f"Py{n}.lean").read_text():
+                    msg = (f"translated definition of {st.get('func')} differs from the committed Generated/Py{n}.lean "
+                           f"(its bridge proof is re-checked by C01)")
+                    res.count("translator-tie:changed:" + n)
+            except Exception:  # noqa: BLE001 — informational only
+                pass
+        if msg:
+            res.notes.append(msg)
+            common.log("note:", msg)
 
 
 def run(res, build):
@@ -512,6 +697,8 @@ def run(res, build):
                 res.notes.append(f"shrinking failed: {type(e).__name__}: {e}")
         res.fail(case, f)
     model_grids(res, [o for o in outs if o["status"] == "ok"])
+    model_numbers(res, [o for o in outs if o["status"] == "ok"])
+    emitter_tie_notes(res, build)
     from .. import crosscorr
 
     crosscorr.run_cross(fam, res)
@@ -522,8 +709,29 @@ def run(res, build):
                     "attribute of every tagged data cell with the original-position rule and with the unpaginated "
                     "rendering; the second stream gives every attribute value in every spelling the constructor "
                     "accepts (array-likes included: a 1-D array-like is held as a flat list, `Attr.list` in the "
-                    "encoder model, which `Attr.toNested` reads as ONE ROW — C09enc_held_forms).")
+                    "encoder model, which `Attr.toNested` reads as ONE ROW — C09enc_held_forms). Every distinct numeric "
+                    "attribute value of every document is also sent to the encoder model (`emit_num`): the number it "
+                    "emits (C09num_row_height: floor of half the nearest twip count; C09num_half_points) is compared "
+                    "with the number in the real output.")
 
 
 def replay(payload):
-    return layfamily.replay_family(FAM, payload)
+    rc = layfamily.replay_family(FAM, payload)
+    case = payload.get("case") or {}
+    if "spec" not in case:
+        for b in payload.get("broken", []):
+            if b.get("kind") == "correspondence" and "case" in b:
+                case = b["case"]
+    if "spec" in case and not case.get("cross"):
+        # the model tie of the emitted numbers on the same document
+        o = layfamily._in_pool((FAM, 0, 0, "quick", dict(spec=case["spec"], info=case["info"],
+                                                        history=case.get("history"))))
+        nums = (o.get("extra") or {}).get("nums") or [] if o.get("status") == "ok" else []
+        drv = common.driver_batch([dict(op="emit_num", attr=it["attr"], value=it["value"]) for it in nums])
+        for it, d in zip(nums, drv):
+            if "refused" in d or (d.get("near") and not d.get("tie")):
+                continue
+            if d["n"] != it["observed"]:
+                print(f"MODEL NUMBER DIFFERS: {it['attr']}={it['shown']} at data cell {tuple(it['cell'])}: the Lean "
+                      f"encoder model emits {d['n']!r}, the real output has {it['observed']!r}")
+    return rc
